@@ -303,14 +303,62 @@ Definition c18b_model (c : bcase) : bool :=
   let ev := model_events c in
   bool_decide (bc_metrics c = [mtotal MHit ev; mtotal MMiss ev; mtotal MExpired ev; mtotal MWrite ev; mtotal MDelete ev]).
 
+(* ---------- Failover: C01 ---------- *)
+From Cache Require Import Failover FailoverRun FailoverObs.
+
+Definition check_c01 (c : fcase) : N := code (corr_ok c) (C01_obs (impl_trace c)).
+Definition check_c02 (c : fcase) : N := code (corr_ok c) (C02_obs (impl_trace c)).
+Definition check_c04 (c : fcase) : N := code (corr_ok c) (C04_obs c).
+
+Record c05case := C05Case { c05_c : fcase; c05_skips : list tid; c05_single : bool }.
+Definition check_c05 (c : c05case) : N :=
+  code (corr_ok (c05_c c))
+       ((if c05_single c then C05_single_obs (impl_trace (c05_c c)) else true) && C05_fail_obs (c05_c c) (c05_skips c)).
+
+Record c06case := C06Case { c06_c : fcase; c06_gets : list getinfo; c06_ctx_ok : bool }.
+Definition check_c06 (c : c06case) : N :=
+  code (corr_ok (c06_c c))
+       (forallb (c06_get_ok (f_update_ttl (fc_cfg (c06_c c))) (impl_trace (c06_c c))) (c06_gets c) && c06_ctx_ok c).
+
+Record c03case := C03Case { c03_c : fcase; c03_tid : tid; c03_hit : option err; c03_built : val + Z }.
+
+Definition first_read_of (t : tid) (ls : list mlabel) : option (time * rres) :=
+  match list_find (fun te => match te.2 with FRead t' _ _ => (t =? t')%N | _ => false end = true) (timed_trace ls) with
+  | Some (_, (now, FRead _ _ r)) => Some (now, r)
+  | _ => None
+  end.
+
+Definition outcome_matches (exp obs : outcome) : bool :=
+  bool_decide (oc_val exp = oc_val obs) &&
+  (match oc_err exp with Some e => bool_decide (oc_err obs = Some e) | None => bool_decide (oc_err obs = None) end) &&
+  bool_decide (oc_built exp = oc_built obs) && bool_decide (oc_before exp = oc_before obs) &&
+  bool_decide (oc_writes exp = oc_writes obs).
+
+Definition c03_ok (c : c03case) : bool :=
+  let cfg := fc_cfg (c03_c c) in
+  match first_read_of (c03_tid c) (fc_labels (c03_c c)), trace_outcome (c03_tid c) (impl_trace (c03_c c)) with
+  | Some (now, rd), Some obs =>
+      match classify (f_max_stale cfg) now rd with
+      | Some ec =>
+          let hit := if 0 <=? f_failed_ttl cfg then c03_hit c else None in
+          outcome_matches (spec_table nil_impl (f_variant cfg) (f_sync_update cfg) (f_fail_hard cfg) (f_update_ttl cfg) 0 ec hit (c03_built c)) obs
+      | None => true
+      end
+  | _, _ => false
+  end.
+
+Definition check_c03 (c : c03case) : N := code (corr_ok (c03_c c)) (c03_ok c).
+
 Inductive c18case :=
-| C18B (fc : flavour * bcase).
+| C18B (fc : flavour * bcase)
+| C18F (c : fcase).
 
 Definition check_c18 (c : c18case) : N :=
   match c with
   | C18B fc =>
       let p := c18b_ok fc.2 in
       if c18b_model fc.2 then (if p then 0 else 2)%N else (if p then 1 else 2)%N
+  | C18F c => code (corr_ok c) (C18F_obs c)
   end.
 
 (* ---------- C13 ---------- *)
@@ -397,3 +445,4 @@ Definition check_c14 (c : c14case) : N :=
       let p := c14h_ok obs in
       if c14h_model base fps obs then (if p then 0 else 2)%N else (if p then 1 else 2)%N
   end.
+
